@@ -217,6 +217,52 @@ Definition gen_restrict_boundary (nf : nat) (t2f : mat nat) (elements b : list n
 Definition gen_remove_kept (nt : nat) (elements : list nat) : list nat := setdiff_range nt elements.'''
 
 
+DEDUPE = ['tmp = np.ascontiguousarray(p.T)',
+          "tmp, ixa, ixb = np.unique(tmp.view([('', tmp.dtype)] * tmp.shape[1]), return_index=True, "
+          "return_inverse=True)",
+          'return (p[:, ixa], Mesh._squeeze_if(ixb[t]))']
+ADD = ['cls = type(self)',
+       "if not isinstance(other, cls):\n    raise TypeError('Can only join meshes with same type.')",
+       'p = np.hstack((self.p.round(decimals=8), other.p.round(decimals=8)))',
+       't = np.hstack((self.t, other.t + self.p.shape[1]))',
+       'return cls(*self._remove_duplicate_nodes(p, t))']
+CARRY = ('if self.boundaries:\n    boundaries = {}\n    for k in self.boundaries:\n'
+         '        slots = enumerate(mesh.facets.T)\n'
+         '        boundaries[k] = np.array([next(dropwhile(lambda s: not np.array_equal(f, s[1]), slots))[0] '
+         'for f in self.facets.T[np.sort(self.boundaries[k])]], dtype=np.int32)')
+
+
+def translate_join():
+    tree = t2.parse(MESH)
+    dd = _body(t2.find_def(tree, '_remove_duplicate_nodes', 'Mesh'))
+    if [t2.src(s) for s in dd] != DEDUPE:
+        raise TranslateError('_remove_duplicate_nodes: ' + repr([t2.src(s) for s in dd]))
+    ad = _body(t2.find_def(tree, '__add__', 'Mesh'))
+    if [t2.src(s) for s in ad] != ADD:
+        raise TranslateError('__add__: ' + repr([t2.src(s) for s in ad]))
+    q = t2.find_def(t2.parse(QUAD), 'to_meshtri', 'MeshQuad1')
+    carry = [s for s in _body(q) if isinstance(s, ast.If) and t2.src(s.test) == 'self.boundaries']
+    carry = t2.only(carry, 'to_meshtri: if self.boundaries')
+    if t2.src(carry) != CARRY:
+        raise TranslateError('to_meshtri: boundary carry-over: ' + t2.src(carry))
+    return '''(* Mesh._remove_duplicate_nodes: np.unique of the coordinate tuples with return_index / return_inverse *)
+Definition gen_dedupe_p (p : list key) : list key :=
+  let tmp := unique_keys p in                                         (* sorted distinct tuples *)
+  let ixa := map (fun k => index_key k p) tmp in                      (* return_index: first occurrence *)
+  gather [] p ixa.                                                    (* p[:, ixa] *)
+Definition gen_dedupe_t (p : list key) (t : mat nat) : mat nat :=
+  let ixb := map (fun k => index_key k (unique_keys p)) p in          (* return_inverse *)
+  map (map (fun v => nth v ixb 0)) t.                                 (* ixb[t] *)
+(* Mesh.__add__ (coordinates already rounded to 8 decimals) *)
+Definition gen_join_p (p1 p2 : list key) : list key := gen_dedupe_p (p1 ++ p2).                    (* hstack((self.p, other.p)) *)
+Definition gen_join_t (p1 p2 : list key) (t1 t2 : mat nat) : mat nat :=
+  gen_dedupe_t (p1 ++ p2) (hstack2 t1 (map (map (fun v => v + length p1)) t2)).                  (* hstack((self.t, other.t + n1)) *)
+(* MeshQuad1.to_meshtri, boundaries: one enumerate(mesh.facets.T) iterator per name, consumed by successive next(dropwhile(...)) *)
+Definition gen_carry_boundary (old_facets new_facets : mat nat) (b : list nat) : option (list nat) :=
+  let slots := combine (seq 0 (length new_facets)) new_facets in
+  scan_all (map (fun k => nth k old_facets []) (sort_nat b)) slots.'''
+
+
 HEADER = '''(* GENERATED by vlib/c18_translate.py from skfem/mesh/mesh.py, mesh_quad_1.py, mesh_hex_1.py, mesh_wedge_1.py,
    refdom.py — do not edit *)
 From Coq Require Import List Arith Bool ZArith.
@@ -226,4 +272,4 @@ Require Import Model.C18_Surgery.
 
 
 def translate():
-    return '\n\n'.join([HEADER, translate_quad(), translate_tets(), translate_restrict()]) + '\n'
+    return '\n\n'.join([HEADER, translate_quad(), translate_tets(), translate_restrict(), translate_join()]) + '\n'
